@@ -38,6 +38,17 @@ func (s *sim) tick() time.Time {
 	return s.now
 }
 
+// externalInputsOnly reports whether all inputs of tx are outpoints made up by
+// fundingTx, i.e. outside the wallet.
+func externalInputsOnly(tx *wire.MsgTx) bool {
+	for _, in := range tx.TxIn {
+		if in.PreviousOutPoint.Hash[31] != 0xf0 {
+			return false
+		}
+	}
+	return true
+}
+
 // fundingTx pays one of the wallet's addresses from an outpoint outside the wallet.
 func (s *sim) fundingTx() *wire.MsgTx {
 	own := s.book.List[rapid.IntRange(0, len(s.book.List)-1).Draw(s.t, "payTo")]
@@ -56,10 +67,10 @@ func (s *sim) fundingTx() *wire.MsgTx {
 
 // spendTx spends an unspent confirmed wallet coin to a script outside the
 // wallet (another instance of the same seed could do that), or nil.
-func (s *sim) spendTx() *wire.MsgTx {
+func (s *sim) spendTx(spent map[wire.OutPoint]bool) *wire.MsgTx {
 	var cands []*walletsim.Coin
 	for _, co := range s.book.Coins(s.f.Chain) {
-		if co.SpentBy == nil && co.Block != nil && !co.Coinbase {
+		if co.SpentBy == nil && co.Block != nil && !co.Coinbase && !spent[co.OutPoint] {
 			cands = append(cands, co)
 		}
 	}
@@ -80,56 +91,106 @@ func (s *sim) spendTx() *wire.MsgTx {
 	return tx
 }
 
-// extend mines n blocks; each takes some mempool transactions (parents first:
-// mempool order is arrival order) and some new ones.
-func (s *sim) extend(n int, log string) {
-	for i := 0; i < n; i++ {
-		var txs []*wire.MsgTx
-		spent := map[wire.OutPoint]bool{}
-		inBlock := map[chainhash.Hash]bool{}
-		add := func(tx *wire.MsgTx) {
-			for _, in := range tx.TxIn {
-				if spent[in.PreviousOutPoint] {
-					return
-				}
-			}
-			for _, in := range tx.TxIn {
-				spent[in.PreviousOutPoint] = true
-			}
-			txs = append(txs, tx)
-			inBlock[tx.TxHash()] = true
-		}
-		for _, tx := range s.f.Chain.Mempool() {
-			// a transaction can only confirm when its parents are confirmed or earlier in the block
-			ok := true
-			for _, in := range tx.TxIn {
-				ph := in.PreviousOutPoint.Hash
-				if s.f.Chain.InMempool(ph) && !inBlock[ph] {
-					ok = false
-				}
-			}
-			if ok && rapid.IntRange(0, 9).Draw(s.t, "takeMempool") < 7 {
-				add(tx)
+// draft is the drawn content of a block that is not mined yet.
+type draft struct {
+	txs      []*wire.MsgTx
+	ts       time.Time
+	cbScript []byte
+	cbVal    int64
+}
+
+// draftBlock draws the content of the next block: some mempool transactions
+// (parents first: mempool order is arrival order) and some new ones. spent and
+// planned carry the outpoints consumed and transactions included by earlier
+// drafts that are not mined yet.
+//
+// With noSpends the block contains no transaction spending a wallet coin: a
+// block found while a rescan is in flight is announced at once, and a spend in
+// it would reach the wallet before the rescan has delivered the transaction it
+// spends - a child confirmed before its parent, which no history of the
+// property's domain contains.
+func (s *sim) draftBlock(spent map[wire.OutPoint]bool, planned map[chainhash.Hash]bool, noSpends bool) draft {
+	var d draft
+	inBlock := map[chainhash.Hash]bool{}
+	add := func(tx *wire.MsgTx) {
+		for _, in := range tx.TxIn {
+			if spent[in.PreviousOutPoint] {
+				return
 			}
 		}
+		for _, in := range tx.TxIn {
+			spent[in.PreviousOutPoint] = true
+		}
+		d.txs = append(d.txs, tx)
+		inBlock[tx.TxHash()] = true
+	}
+	for _, tx := range s.f.Chain.Mempool() {
+		if planned[tx.TxHash()] {
+			continue
+		}
+		if noSpends && !externalInputsOnly(tx) {
+			continue
+		}
+		// a transaction can only confirm when its parents are confirmed or earlier in the block
+		ok := true
+		for _, in := range tx.TxIn {
+			ph := in.PreviousOutPoint.Hash
+			if s.f.Chain.InMempool(ph) && !inBlock[ph] && !planned[ph] {
+				ok = false
+			}
+		}
+		if ok && rapid.IntRange(0, 9).Draw(s.t, "takeMempool") < 7 {
+			add(tx)
+		}
+	}
+	if len(s.book.List) > 0 {
 		nf := rapid.IntRange(0, 2).Draw(s.t, "nFunding")
 		for k := 0; k < nf; k++ {
 			add(s.fundingTx())
 		}
-		if rapid.IntRange(0, 3).Draw(s.t, "withSpend") == 0 {
-			if tx := s.spendTx(); tx != nil {
+		if !noSpends && rapid.IntRange(0, 3).Draw(s.t, "withSpend") == 0 {
+			if tx := s.spendTx(spent); tx != nil {
 				add(tx)
 			}
 		}
-		var cbScript []byte
-		var cbVal int64
 		if rapid.IntRange(0, 7).Draw(s.t, "coinbaseToWallet") == 0 {
-			cbScript = s.book.List[rapid.IntRange(0, len(s.book.List)-1).Draw(s.t, "cbTo")].Script
-			cbVal = 50_0000
+			d.cbScript = s.book.List[rapid.IntRange(0, len(s.book.List)-1).Draw(s.t, "cbTo")].Script
+			d.cbVal = 50_0000
 		}
-		b := s.f.Chain.Extend(txs, s.tick(), cbScript, cbVal)
-		s.c.Logf("%s: block %d %s with %d txs (coinbase to wallet: %v)", log, b.Height, b.Hash.String()[:8], len(txs), cbScript != nil)
 	}
+	for h := range inBlock {
+		planned[h] = true
+	}
+	d.ts = s.tick()
+	return d
+}
+
+// extend mines n blocks.
+func (s *sim) extend(n int, log string) {
+	for i := 0; i < n; i++ {
+		d := s.draftBlock(map[wire.OutPoint]bool{}, map[chainhash.Hash]bool{}, false)
+		b := s.f.Chain.Extend(d.txs, d.ts, d.cbScript, d.cbVal)
+		s.c.Logf("%s: block %d %s with %d txs (coinbase to wallet: %v)", log, b.Height, b.Hash.String()[:8], len(d.txs), d.cbScript != nil)
+	}
+}
+
+// blocksDuringRescan draws n blocks now and mines them while the wallet's next
+// Rescan call is in flight: their connect notifications reach the wallet before
+// the rescan's own notifications and its RescanFinished.
+func (s *sim) blocksDuringRescan(n int) {
+	spent, planned := map[wire.OutPoint]bool{}, map[chainhash.Hash]bool{}
+	var ds []draft
+	for i := 0; i < n; i++ {
+		ds = append(ds, s.draftBlock(spent, planned, true))
+	}
+	ch := s.f.Chain
+	s.f.Client.DuringRescan = func() {
+		for _, d := range ds {
+			ch.Extend(d.txs, d.ts, d.cbScript, d.cbVal)
+		}
+	}
+	s.c.Logf("%d block(s) will be found while the startup rescan is in flight", n)
+	s.c.Class("block-arrives-during-startup-rescan")
 }
 
 // reorg disconnects depth blocks and connects a new branch at least as long.
@@ -243,6 +304,9 @@ func TestC15TipFollowsBackend(t *testing.T) {
 			f.OnOpen = func() { f.Client.Trace = func(s string) { c.Logf("    %s", s) } }
 			f.OnOpen()
 		}
+		if rapid.IntRange(0, 2).Draw(t, "blockDuringFirstRescan") == 0 {
+			s.blocksDuringRescan(rapid.IntRange(1, 2).Draw(t, "nDuringRescan"))
+		}
 		f.Connect()
 		f.Unlock()
 		for _, sc := range waddrmgr.DefaultKeyScopes {
@@ -284,6 +348,9 @@ func TestC15TipFollowsBackend(t *testing.T) {
 				f.Style = simchain.Style(rapid.IntRange(0, 1).Draw(t, "style"))
 				f.Open()
 				f.Client.TxBeforeBlock = rapid.Bool().Draw(t, "txBeforeBlock")
+				if rapid.IntRange(0, 2).Draw(t, "blockDuringRescan") == 0 {
+					s.blocksDuringRescan(rapid.IntRange(1, 2).Draw(t, "nDuringRescan"))
+				}
 				f.Connect()
 				c.Logf("wallet restarted (style %d)", f.Style)
 				s.restarts++
